@@ -69,6 +69,24 @@ Theorem C19_counters_once : forall q,
 Proof. exact counters_once. Qed.
 Print Assumptions C19_counters_once.
 
+(* which location counter: decided by loc.Mask first - true for every query *)
+Theorem C19_location_counter_partial : forall q mask id0 id1,
+  q_loc q = LocOk mask id0 id1 -> located q = true ->
+  cnt (if (0 <? mask)%N then KLocEcs else id_class id0 id1) (o_incs (serve q)) = 1%nat.
+Proof. exact location_counter. Qed.
+Print Assumptions C19_location_counter_partial.
+
+(* ... which is not the location class of the query: a resolver-map match of an IPv4
+   client (mask 96 + prefix length, here the default location 0,1 through 0.0.0.0/0) is
+   counted as DNS_location.ecs without any client-subnet option; DNS_location.default
+   stays 0.  Observed witness: foo.example.com. A from 9.9.9.9 without EDNS. *)
+Theorem C19_location_class_refuted :
+  exists q, located q = true /\ q_loc q = LocOk 96 0 1 /\
+            cnt (true_loc_class false 0 1) (o_incs (serve q)) = 0%nat /\
+            cnt KLocEcs (o_incs (serve q)) = 1%nat.
+Proof. exact location_class_refuted. Qed.
+Print Assumptions C19_location_class_refuted.
+
 (* any two interleavings of the same goroutine programs leave the same counters:
    the start value plus the sum of the increments *)
 Theorem C19_counters_commute : forall ths tr1 tr2 m k,
